@@ -36,6 +36,7 @@ import (
 	"fmt"
 	"hash"
 	"strconv"
+	"sync"
 	"time"
 
 	"gitlab.com/yawning/obfs4.git/common/csrand"
@@ -82,6 +83,10 @@ var ErrReplayedHandshake = errors.New("handshake: Replay detected")
 // ErrNtorFailed is the error returned when the ntor handshake fails.  This
 // error is fatal and the connection MUST be dropped.
 var ErrNtorFailed = errors.New("handshake: ntor handshake failure")
+
+// replayStampLock serializes reading the clock and updating a replay filter,
+// see parseClientHandshake.
+var replayStampLock sync.Mutex
 
 // InvalidMacError is the error returned when the handshake MACs do not match.
 // This error is fatal and the connection MUST be dropped.
@@ -288,7 +293,16 @@ func (hs *serverHandshake) parseClientHandshake(filter *replayfilter.ReplayFilte
 		macRx := resp[pos+markLength : pos+markLength+macLength]
 		if hmac.Equal(macCmp, macRx) {
 			// Ensure that this handshake has not been seen previously.
-			if filter.TestAndSet(time.Now(), macRx) {
+			//
+			// The clock is read and the filter updated under one lock: the
+			// filter takes a time stamp that lies before its eldest entry
+			// for a clock that jumped backwards and discards everything it
+			// remembers, so handshakes that are verified at the same moment
+			// must reach it in the order of their time stamps.
+			replayStampLock.Lock()
+			seen := filter.TestAndSet(time.Now(), macRx)
+			replayStampLock.Unlock()
+			if seen {
 				// The client either happened to generate exactly the same
 				// session key and padding, or someone is replaying a previous
 				// handshake.  In either case, fuck them.
